@@ -85,16 +85,24 @@ pub fn run(ctx: &mut Ctx) {
         ];
         let kinds = [Ra::Absent, Ra::Authentic, Ra::SigFlip, Ra::OtherSession, Ra::OtherItems, Ra::UntrustedCa, Ra::NoX5, Ra::GarbageX5, Ra::AttachedPayload, Ra::WrongAlg, Ra::OtherKey, Ra::ImpostorThenGenuine, Ra::GenuineThenCa, Ra::OtherSessionAttached];
         let ncases = if ctx.thorough { 120 } else { 40 };
+        // fixed patterns of several document requests (the verdict is over the WHOLE message)
+        let patterns: Vec<Vec<Ra>> = vec![
+            vec![Ra::Absent, Ra::Authentic], vec![Ra::Authentic, Ra::Absent], vec![Ra::Absent, Ra::Absent, Ra::Authentic], vec![Ra::Authentic, Ra::Authentic],
+            vec![Ra::NoX5, Ra::Authentic], vec![Ra::GarbageX5, Ra::Authentic], vec![Ra::SigFlip, Ra::Authentic], vec![Ra::Authentic, Ra::SigFlip],
+            vec![Ra::UntrustedCa, Ra::Authentic], vec![Ra::Authentic, Ra::OtherSession], vec![Ra::Authentic, Ra::Authentic, Ra::OtherItems], vec![Ra::AttachedPayload, Ra::Authentic],
+            vec![Ra::Authentic, Ra::ImpostorThenGenuine], vec![Ra::OtherKey, Ra::Authentic, Ra::Authentic],
+        ];
+        let ncases = ncases + patterns.len();
         for ci in 0..ncases {
-            let ndr = if ci < kinds.len() { 1 } else { rng.gen_range(1..=3) };
-            let (reg_name, reg) = &regs[if ci < kinds.len() * 2 { ci % 2 * (ci / kinds.len()) } else { rng.gen_range(0..regs.len()) }];
+            let pattern: Option<&Vec<Ra>> = if ci >= ncases - patterns.len() { Some(&patterns[ci - (ncases - patterns.len())]) } else { None };
+            let ndr = match pattern { Some(p) => p.len(), None => if ci < kinds.len() { 1 } else { rng.gen_range(1..=3) } };
+            let (reg_name, reg) = &regs[if pattern.is_some() { 0 } else if ci < kinds.len() * 2 { ci % 2 * (ci / kinds.len()) } else { rng.gen_range(0..regs.len()) }];
             let mut doc_requests = vec![];
             let mut model_reqs = vec![];
             let mut desc_kinds = vec![];
             for di in 0..ndr {
-                let kind = if ci < kinds.len() { kinds[ci] } else if ci < kinds.len() * 2 { kinds[ci - kinds.len()] }
+                let kind = if let Some(p) = pattern { p[di] } else if ci < kinds.len() { kinds[ci] } else if ci < kinds.len() * 2 { kinds[ci - kinds.len()] }
                            else if rng.gen_bool(0.6) { Ra::Authentic } else { kinds[rng.gen_range(0..kinds.len())] };
-                let _ = di;
                 desc_kinds.push(format!("{kind:?}"));
                 let noncanon = rng.gen_bool(0.3);
                 let items = items_request_bytes(&mut rng, noncanon);
@@ -171,6 +179,17 @@ pub fn run(ctx: &mut Ctx) {
             }
             let request = Value::Map(vec![(text("version"), text("1.0")), (text("docRequests"), arr(doc_requests))]);
             let mut dev = device_with_registry(&e.dev, reg);
+            // one case in four is the SECOND request of its session: an authentic, reader-authenticated request came first
+            let warmed = ci % 4 == 3;
+            if warmed {
+                let items0 = items_request_bytes(&mut rng, false);
+                let ra0 = reader_auth(&pki.reader_key, Some(pki.reader.to_der().unwrap()), None, -7, &rab(&de, &erk, &items0), false);
+                let req0 = Value::Map(vec![(text("version"), text("1.0")), (text("docRequests"), arr(vec![Value::Map(vec![(text("itemsRequest"), Value::Tag(24, Box::new(bytes(&items0)))), (text("readerAuth"), ra0)])]))]);
+                let (dk0, _) = dev_view(&dev);
+                let msg0 = session_data(Some(&aes_encrypt(&dk0.sk_reader, &iso_iv(false, dk0.reader_ctr as u32 + 1), &to_bytes(&req0))), None);
+                let _ = catch(|| dev.handle_request(&msg0));
+                ctx.count("second-request-of-session");
+            }
             let (dk, _) = dev_view(&dev);
             let msg = session_data(Some(&aes_encrypt(&dk.sk_reader, &iso_iv(false, dk.reader_ctr as u32 + 1), &to_bytes(&request))), None);
             let r = catch(|| dev.handle_request(&msg));
